@@ -398,7 +398,7 @@ def explore(fn: Callable[[], Any], max_paths: int = 20000, timeout_ms: int = 600
             if out.paths == 1 or not out.witness:
                 r0 = ctx.check()
                 if r0 == "sat":
-                    out.witness = _model_to_py(ctx.solver.model(), ctx.names)
+                    out.witness = _model_to_py(ctx.solver.model(), ctx.names) or {"_": "no symbols on this path"}
                     out.feasible_paths += 1
             else:
                 out.feasible_paths += 1
